@@ -2,6 +2,7 @@
    decisions depend on its own policy history only; chains in flight through one client are
    independent of each other. *)
 From ReqV Require Import Lib.Bytes Lib.BytesFacts Model.Authority Model.Redirect Model.RedirectClient.
+From ReqV Require Import Proofs.RedirectProofs.
 From Coq Require Import Lia.
 
 (* ---------- set_nth / map_nth ---------- *)
@@ -253,4 +254,75 @@ Lemma interleaved_chains_independent ps sched chains i init hs targets :
 Proof.
   intros Hi Hn. rewrite run_sched_nth, nth_error_map, Hi. cbn [option_map fst snd].
   now rewrite hop_n_run_chain.
+Qed.
+
+(* ---------- (3) several requests for one named URL ---------- *)
+
+(* every request the operation makes is a chain of its own from the NAMED authority *)
+Lemma reissue_each_is_a_chain ps init hs : forall scripts o,
+  In o (reissue ps init hs scripts) -> exists t, In t scripts /\ o = run_chain ps init hs t.
+Proof.
+  induction scripts as [|t r IH]; intros o; cbn [reissue]; [intros []|].
+  intros [Ho | Ho].
+  - exists t. split; [now left|now symmetry].
+  - destruct (snd (run_chain ps init hs t)); [|destruct Ho].
+    destruct (IH o Ho) as [t' [Hin He]]. exists t'. split; [now right|assumption].
+Qed.
+
+Lemma run_chain_head ps init hs t :
+  exists l, fst (run_chain ps init hs t) = {| s_host := init; s_hdrs := hs |} :: l.
+Proof.
+  unfold run_chain. destruct (follow ps init hs [init] false t) as [l e]. now exists l.
+Qed.
+
+(* ... so it starts at the named authority with the caller's headers ... *)
+Lemma reissue_starts_at_named ps init hs scripts o :
+  In o (reissue ps init hs scripts) ->
+  exists l, fst o = {| s_host := init; s_hdrs := hs |} :: l.
+Proof.
+  intros Ho. apply reissue_each_is_a_chain in Ho as [t [_ ->]]. apply run_chain_head.
+Qed.
+
+Lemma run_chain_tail_in_follow ps init hs t s :
+  In s (tl (fst (run_chain ps init hs t))) -> In s (fst (follow ps init hs [init] false t)).
+Proof.
+  unfold run_chain. destruct (follow ps init hs [init] false t) as [l e]. cbn [fst tl]. auto.
+Qed.
+
+(* ... every other host it reaches was permitted by every policy as a redirect from the named one ... *)
+Lemma reissue_other_hosts_permitted ps init hs scripts o s :
+  In o (reissue ps init hs scripts) -> In s (tl (fst o)) ->
+  exists ext, all_permit ps (s_host s) (init :: ext) = true.
+Proof.
+  intros Ho Hs. apply reissue_each_is_a_chain in Ho as [t [_ ->]].
+  now apply chain_sent_permitted in Hs.
+Qed.
+
+(* ... and gets a sensitive header only as Go's cross-origin rule (or an AlwaysCopy policy) allows *)
+Lemma reissue_sensitive ps init hs scripts o s n k :
+  is_sensitive n = true -> mem_bytes n (always_names ps) = false ->
+  In o (reissue ps init hs scripts) -> In s (tl (fst o)) -> In (n, k) (s_hdrs s) -> k <> 0 ->
+  s_host s = init \/ should_copy init (s_host s) = true.
+Proof.
+  intros Hsens Hnot Ho Hs Hin Hk. apply reissue_each_is_a_chain in Ho as [t [_ ->]].
+  apply run_chain_tail_in_follow in Hs.
+  now destruct (follow_sensitive ps init hs n Hsens Hnot t [init] false s k Hs Hin Hk).
+Qed.
+
+(* the c-m1 design hands the caller's Authorization to a host it only learned from a redirect *)
+Lemma reissue_from_final_refuted :
+  exists ps init hs scripts o s,
+    In o (reissue_from_final ps init hs scripts) /\ In s (fst o) /\
+    In (bs "Authorization", 1) (s_hdrs s) /\
+    s_host s <> init /\ should_copy init (s_host s) = false /\
+    (forall o' s', In o' (reissue ps init hs scripts) -> In s' (fst o') ->
+                   s_host s' <> init -> In (bs "Authorization", 0) (s_hdrs s')).
+Proof.
+  exists [PDefault], (bs "api.a.test"), [(bs "Authorization", 1)],
+         [[bs "files.b.test"]; [bs "files.b.test"]].
+  eexists. eexists. split; [right; left; reflexivity|]. split; [left; reflexivity|].
+  split; [left; reflexivity|]. split; [vm_compute; discriminate|]. split; [reflexivity|].
+  intros o' s' Ho Hs Hne. vm_compute in Ho.
+  destruct Ho as [<-|[<-|[]]]; vm_compute in Hs; destruct Hs as [<-|[<-|[]]];
+    try (exfalso; apply Hne; reflexivity); left; reflexivity.
 Qed.
